@@ -14,7 +14,7 @@ import re
 import vlib
 
 SPEC = 'TSIIndex'
-BASE = dict(NS=3, MaxGen=1, MaxOps=4, MaxFiles=3, MaxCreate=2, SfileDelete='FALSE', CacheOn='TRUE',
+BASE = dict(NS=3, MaxGen=1, MaxOps=3, MaxFiles=3, MaxCreate=2, SfileDelete='FALSE', CacheOn='TRUE',
             FixCacheOnDrop='TRUE', FixNewestTomb='TRUE', Internal='TRUE', RecHist='FALSE', WithCrash='TRUE')
 INV_KEEP = 'TypeOK InvAdjacent InvMeas InvVser InvVals InvPset InvRawSuper'
 INV_DEL = 'TypeOK InvAdjacent InvMeas InvVser InvVals InvMser InvKser InvKeys InvPset InvRawSuper'
@@ -65,16 +65,17 @@ def run(ctx):
     tab = series_tab(ctx)
     # All TLC jobs run concurrently (each is an independent JVM; tags keep their scratch apart).
     from concurrent.futures import ThreadPoolExecutor
-    pool = ThreadPoolExecutor(max_workers=5)
+    ncpu = vlib.NCPU
+    pool = ThreadPoolExecutor(max_workers=max(1, min(5, ncpu // 3)))   # concurrent JVMs: 1 on a 4-cpu budget, 5 on 16 cpus
     # ---- 1. model checking (VIEW hides hist): both series-file modes, repaired code
     mc = dict(BASE)
     if thorough:
-        mc.update(MaxOps=5, MaxFiles=4)
+        mc.update(MaxOps=4, MaxFiles=4)
     md = dict(mc, SfileDelete='TRUE')
-    if not thorough:
-        md.update(MaxOps=3)
-    f_keep = pool.submit(ctx.tlc, SPEC, cfg(mc, INV_KEEP), timeout=1700, coverage=True, tag='mc-keep', workers=6, heap='6g')
-    f_del = pool.submit(ctx.tlc, SPEC, cfg(md, INV_DEL), timeout=1700, coverage=True, tag='mc-del', workers=4, heap='4g')
+    if thorough:
+        md.update(MaxOps=4)
+    f_keep = pool.submit(ctx.tlc, SPEC, cfg(mc, INV_KEEP), timeout=1700, coverage=True, tag='mc-keep', workers=min(6, ncpu), heap='6g')
+    f_del = pool.submit(ctx.tlc, SPEC, cfg(md, INV_DEL), timeout=1700, coverage=True, tag='mc-del', workers=min(4, ncpu), heap='4g')
     # ---- 2. leads: the model of the code as it is at HEAD (each must be found by TLC on the model; whether the real tree
     #         still has them is decided by the replay below)
     def run_leads():
@@ -131,7 +132,7 @@ def run(ctx):
 
     # ---- 4. concretisations and budget
     rng = ctx.rng
-    budget_units = 26000 if not thorough else 420000      # ~ replay steps incl. crash images (25/s/process measured)
+    budget_units = 20000 if not thorough else 420000      # ~ replay steps incl. crash images (25/s/process measured)
     per_hist = 1 if not thorough else 3
     out = []
     for c in cases:
@@ -161,7 +162,7 @@ def run(ctx):
     ctx.extra_cov['cases_generated'] = len(out)
     ctx.extra_cov['cases_replayed'] = len(chosen)
     tolerate = ','.join(k['pattern'] for k in ctx.known if k.get('property') == ctx.id and not str(k.get('status', 'open')).startswith('fixed'))
-    res, lines = ctx.replay(binary, chosen, timeout=1500 if not thorough else 1700, procs=16, args={'tolerate': tolerate})
+    res, lines = ctx.replay(binary, chosen, timeout=1500 if not thorough else 1700, procs=min(16, ncpu), args={'tolerate': tolerate}, case_timeout='900s')
     ctx.absorb(res, lines)
     stopped = sum(1 for x in res if (x.get('extra') or {}).get('stopped'))
     structs = set()
